@@ -142,6 +142,8 @@ def gen_content(r, layout, big=False):
                 for d in dims[1:]: nstr *= d
                 if nd == 1: nstr = 1 if w else 0
                 vals = [rand_name(r, r.randint(0, w), False).rstrip(b" ") if w else b"" for _ in range(nstr)]
+                # values ending in white space other than the blank (only blanks are padding)
+                vals = [v[:-1] + bytes([r.choice(b"\t\n\r\x0b\x0c")]) if v and r.random() < 0.15 else v for v in vals]
                 if nd == 0: vals = [rand_name(r, 1)]
             elif ty == "B": vals = [r.choice([0, 1, -1, 127, -128, r.randint(-128, 127)]) for _ in range(cnt)]
             elif ty == "I": vals = [r.choice([0, 1, -1, 32767, -32768, 255, 256, r.randint(-32768, 32767)]) for _ in range(cnt)]
